@@ -198,6 +198,33 @@ def _run_unary(case, A, W, wname):
         evals += 1
         if have != want:
             fails.append(_fail(f"{name.split('(')[0] if name.startswith('rename') else name} == defining sum", dict(inp0, expr=name), have, want))
+    # derived machines must not alias the source: take d = op(A), edit A afterwards, d keeps its language
+    # and d's own derived machines are computed from d (not from the edited A)
+    if wname == "all-indeterminate":
+        extra = Poly.var(40)
+        for name, f, want in exprs[:4] + [e for e in exprs if e[0] in ("trim", "epsremove.star")]:
+            src = mk()
+            d = _call(lambda: f(src))
+            if isinstance(d, str):
+                continue
+            before = table_of(d)
+            try:
+                q0 = next(iter(sorted(src.states, key=repr)), 0)
+                src.add_arc(q0, "b", q0, extra)
+                src.add_F(q0, extra)
+                src.add_I(q0, extra)
+            except Exception:  # noqa: BLE001
+                continue
+            evals += 1
+            after = table_of(d)
+            if after != before:
+                fails.append(_fail("a derived automaton is unaffected by later edits of its source", dict(inp0, expr=name), after, before))
+            rr = table_of(_call(lambda: d.reverse))
+            if not isinstance(before, str) and rr != t_rev(before):
+                fails.append(_fail("reverse of a derived automaton is computed from that automaton", dict(inp0, expr=name), rr, t_rev(before)))
+            r2 = table_of(_call(lambda: d.reverse.reverse))
+            if not isinstance(before, str) and r2 != before:
+                fails.append(_fail("reverse.reverse of a derived automaton", dict(inp0, expr=name), r2, before))
     return {"evals": evals, "nontrivial": int(bool(tA)), "fails": fails, "counters": {"executions": evals}}
 
 
